@@ -36,6 +36,10 @@ pub fn generate(r: &mut Rng, tier: Tier) -> Scenario {
         .iter()
         .flat_map(|(p, t)| split_lines(t).iter().enumerate().filter_map(|(i, l)| parse_include(l).map(|x| (p.clone(), i, x.to_string()))).collect::<Vec<_>>())
         .collect();
+    // A macro definition swallows everything up to its end, directives included, and it may have
+    // begun in an included file: in worlds with macros no directive is added after the cutting.
+    let has_macro = world.files.values().any(|t| t.contains(".macro"));
+    let shape = if has_macro && matches!(shape, 1..=3) { 11 } else { shape };
     match shape {
         0 if !includes.is_empty() => {
             // missing file
@@ -364,7 +368,7 @@ fn is_unterminated_tail(world: &World, k: &Key) -> bool {
     let on_the_directive_line = world.files.get(&k.0).is_some_and(|t| {
         split_lines(t).iter().enumerate().any(|(i, l)| {
             (k.1 == i || k.1 == i + 1)
-                && crate::world::parse_include(l).and_then(|rel| resolve(dir_of(&k.0), rel)).and_then(|target| world.files.get(&target)).is_some_and(|tt| unterminated(tt))
+                && crate::world::parse_include(l).and_then(|rel| world.resolve_in(dir_of(&k.0), rel)).and_then(|target| world.files.get(&target)).is_some_and(|tt| unterminated(tt))
         })
     });
     in_the_file_itself || on_the_directive_line
